@@ -34,6 +34,8 @@ import (
 
 var ErrNonExisting = errors.New("unable to validate non existing package")
 
+const constraintsFailedReason = "ConstraintsFailed"
+
 // PackageDeployer loads package contents from file, wraps it into an ObjectDeployment and deploys it.
 type PackageDeployer struct {
 	client         client.Client
@@ -148,9 +150,20 @@ func (l *PackageDeployer) Deploy(
 	}
 
 	// Check constraints
+	if cond := meta.FindStatusCondition(
+		*apiPkg.GetConditions(), corev1alpha1.PackageInvalid); cond != nil && cond.Reason == constraintsFailedReason {
+		// forget the outcome of earlier checks, constraints are evaluated again.
+		meta.RemoveStatusCondition(apiPkg.GetConditions(), corev1alpha1.PackageInvalid)
+	}
 	if err := validateConstraints(ctx, l.uncachedClient, apiPkg, pkg.Manifest, env); err != nil {
 		setInvalidConditionBasedOnLoadError(apiPkg, err)
 		return err
+	}
+	if cond := meta.FindStatusCondition(
+		*apiPkg.GetConditions(), corev1alpha1.PackageInvalid); cond != nil && cond.Reason == constraintsFailedReason {
+		// Constraints are not met, the package must not be deployed.
+		// Explicitly do not return an error here, so the Invalid condition gets reported.
+		return nil
 	}
 
 	// prepare package render/template context
@@ -376,7 +389,7 @@ func validateConstraints(
 		meta.SetStatusCondition(apiPkg.GetConditions(), metav1.Condition{
 			Type:               corev1alpha1.PackageInvalid,
 			Status:             metav1.ConditionTrue,
-			Reason:             "ConstraintsFailed",
+			Reason:             constraintsFailedReason,
 			Message:            "Constraints not met: " + strings.Join(messages, ", "),
 			ObservedGeneration: apiPkg.ClientObject().GetGeneration(),
 		})
